@@ -180,6 +180,43 @@ def cases(tier, seed):
             d["index"] = IX.rand_blocks_index(rng, [len(c) for c in chunks])
             d["bare"] = len(d["index"]) == 1 and rng.random() < 0.5
         yield d
+    # long, unevenly chunked axes: chunk lengths and in-chunk offsets beyond 255 (65535 in the thorough tier), where
+    # the compact integer dtypes used for in-chunk positions change; array indices pick elements deep inside the long chunk
+    for j in range(160 if tier == "quick" else 1600):
+        huge = tier == "thorough" and j % 40 == 0
+        big = rng.randint(65536, 66500) if huge else rng.randint(256, 700)
+        small = [rng.randint(1, 40) for _ in range(rng.randint(2, 6))]
+        ch = small[:]
+        ch.insert(rng.randrange(len(ch) + 1), big)
+        L = sum(ch)
+        start = sum(ch[: ch.index(big)])
+        deep = [start + rng.randint(256 if not huge else 65536, big - 1) if big > (256 if not huge else 65536)
+                else start + big - 1 for _ in range(rng.randint(1, 4))]
+        picks = deep + [rng.randrange(L) for _ in range(rng.randint(0, 5))]
+        rng.shuffle(picks)
+        kind = rng.choice(("ilist", "ilist", "blist", "vindex"))
+        how = rng.choice(("list", "np", "dask")) if not huge else rng.choice(("np", "dask"))
+        if kind == "blist":
+            v = [0] * L
+            for i in picks:
+                v[i] = 1
+            e = {"k": "blist", "v": v, "as": how, "c": [L]}
+        elif kind == "ilist":
+            if rng.random() < 0.3:
+                picks = [i - L if rng.random() < 0.5 else i for i in picks]
+            e = {"k": "ilist", "v": picks, "as": how, "dt": "int64", "c": [len(picks)]}
+        else:
+            e = {"k": "varr", "v": picks, "shape": [len(picks)], "as": "np"}
+        other = rng.choice((None, None, 2, 3)) if not huge else None
+        shape, chunks, index = [L], [ch], [e]
+        if other:
+            first = rng.random() < 0.5
+            oc = [1] * other if rng.random() < 0.5 else [other]
+            shape, chunks = ([L, other], [ch, oc]) if first else ([other, L], [oc, ch])
+            index = [e, IX.FULL] if first else [IX.FULL, e]
+        yield {"op": "vindex" if kind == "vindex" else "getitem", "shape": shape, "chunks": chunks,
+               "dtype": rng.choice(("int64", "float64")), "threads": False, "bare": len(index) == 1 and rng.random() < 0.5,
+               "index": index, "family": "long-axis"}
 
 
 # ------------------------------------------------------------------------------------------------
